@@ -951,7 +951,9 @@ int main(int argc, char **argv)
 	max_lines = 40000;
 	const char *model = NULL, *outp = NULL, *script = NULL, *stats = NULL, *guide = NULL;
 	int net_mode = 0;
-	unsigned skew = 0, park = 0;
+	unsigned skew = 0, park = 0, skew_point = VP_TPHASE;
+	const char *delay = NULL;
+	int skew_tag = -1;
 	int threads = 2, ckpt = 0, policy = 0;
 	unsigned gvt_period = 0, num = 1, den = 4;
 	unsigned long budget = 4000000, seed = 1, prng = 12345;
@@ -981,6 +983,9 @@ int main(int argc, char **argv)
 		else if(!strcmp(a, "--batch")) batch_size = (unsigned)atoi(v), ++i;
 		else if(!strcmp(a, "--ranks")) dist_ranks = atoi(v), ++i;
 		else if(!strcmp(a, "--skew")) skew = (unsigned)atoi(v), ++i;
+		else if(!strcmp(a, "--delay")) delay = v, ++i;
+		else if(!strcmp(a, "--skew-tag")) skew_tag = atoi(v), ++i;
+		else if(!strcmp(a, "--skew-point")) skew_point = !strcmp(v, "drain") ? VP_Q_DRAIN : !strcmp(v, "nphase") ? VP_NPHASE : VP_TPHASE, ++i;
 		else if(!strcmp(a, "--park")) park = (unsigned)atoi(v), ++i;
 		else if(!strcmp(a, "--max-lines")) max_lines = strtoul(v, NULL, 10), ++i;
 		else if(!strcmp(a, "--net")) net_mode = atoi(v), ++i;
@@ -1025,8 +1030,22 @@ int main(int argc, char **argv)
 	}
 	if(park)
 		vs_park(1, VP_EXTRACT, park); /* the worker with the highest thread id is created first: delay it when it enters its main loop */
+	if(delay) {
+		/* tag:point:nth:len - one long delay of one thread at its n-th arrival at an observation point (drain|tphase|nphase|flag|push) */
+		int tg = 0;
+		char pn[16] = "";
+		unsigned long nth = 1;
+		unsigned len = 100;
+		if(sscanf(delay, "%d:%15[a-z]:%lu:%u", &tg, pn, &nth, &len) >= 2) {
+			unsigned pt = !strcmp(pn, "drain") ? VP_Q_DRAIN : !strcmp(pn, "nphase") ? VP_NPHASE : !strcmp(pn, "flag") ? VP_FLAG :
+			    !strcmp(pn, "push") ? VP_Q_PUSH : !strcmp(pn, "precas") ? VP_Q_PRECAS : VP_TPHASE;
+			vs_delay(tg, pt, nth, len);
+		}
+	}
+	vs_set_skew_tag(skew_tag);
 	if(skew)
-		vs_set_skew(VP_TPHASE, skew); /* let threads drift apart at the GVT thread-phase transitions */
+		vs_set_skew(skew_point, skew); /* let threads drift apart at the GVT thread-phase transitions (or inside the inbox exchange: also the
+		                                * one inside msg_queue_time_peek, i.e. in the middle of a GVT phase step; or at the node phases) */
 	int r = run_all(threads, ckpt, gvt_period, term_time, stats, prng);
 	if(stats)
 		dump_stats(stats);
